@@ -187,6 +187,27 @@ func runSelftest(repo, verif string, def *PropDef, kf *KFFile) SelftestResult {
 			continue
 		}
 		name := "seeded:" + filepath.Base(dir)
+		// a seed aimed at this property whose change is caught by a rule that belongs to another property only
+		// (expect_rule names that rule, also_checked_by lists the property): judged there, not here
+		if meta.Property == def.ID && len(meta.ExpectRule) > 3 && meta.ExpectRule[0] == 'C' && meta.ExpectRule[:3] != def.ID {
+			other := meta.ExpectRule[:3]
+			listed := false
+			for _, a := range meta.AlsoProps {
+				if a == other {
+					listed = true
+				}
+			}
+			hasRuleHere := false
+			for _, ru := range runProp(bp, def).Obls {
+				if strings.Contains(ru.Rule, meta.ExpectRule) {
+					hasRuleHere = true
+				}
+			}
+			if listed && !hasRuleHere {
+				st.Details = append(st.Details, map[string]any{"variant": name, "status": "detected by " + meta.ExpectRule + ", a rule of " + other + " (judged in that property's selftest)"})
+				continue
+			}
+		}
 		if meta.Undetectable != "" && meta.Property == def.ID {
 			st.Undetectable = append(st.Undetectable, name+": "+meta.Undetectable)
 			st.Details = append(st.Details, map[string]any{"variant": name, "status": "documented as not statically detectable", "reason": meta.Undetectable})
